@@ -373,6 +373,15 @@ class FuncExec(ExprMixin, CallMixin):
 
     st_AsyncFunctionDef = st_FunctionDef
 
+    def st_ClassDef(self, s, st):
+        # a class defined inside the function: a fresh class value; instances are created by calling it
+        q = self.qual.split(".", 1)[1] + "." + s.name
+        c = smt.const("localcls:%s.%s" % (self.module.name, q))
+        st.locals[s.name] = c
+        st.ltypes[s.name] = "type"
+        st.ghost["$localcls:" + s.name] = c
+        return [(st, NORMAL)]
+
     def st_Expr(self, s, st):
         if isinstance(s.value, ast.Constant):
             return [(st, NORMAL)]     # docstring
@@ -959,9 +968,9 @@ class FuncExec(ExprMixin, CallMixin):
         if isinstance(inner, ast.Call) and isinstance(inner.func, ast.Name) and inner.func.id == "range" and not rev:
             mode = "range"
         dictview = None
-        if (isinstance(inner, ast.Call) and isinstance(inner.func, ast.Attribute) and inner.func.attr in ("values", "keys")
+        if (isinstance(inner, ast.Call) and isinstance(inner.func, ast.Attribute) and inner.func.attr in ("values", "keys", "items")
                 and not inner.args and self.static_type(inner.func.value, st) in ("dict", "OrderedDict")):
-            dictview = "$oval" if inner.func.attr == "values" else "$okey"
+            dictview = {"values": "$oval", "keys": "$okey", "items": "items"}[inner.func.attr]
             inner = inner.func.value
         for st2, seq, x in (self.ev(inner.args[0] if mode == "range" and len(inner.args) == 1 else inner, st)
                             if mode != "range" or len(inner.args) == 1 else [self._unsupported("range arity")]):
@@ -997,6 +1006,8 @@ class FuncExec(ExprMixin, CallMixin):
             def item(stx, i):
                 if t == "list":
                     return z3.Select(stx.heap.sel("$litem", seq), i)
+                if t == "dictview" and dictview == "items":
+                    return self.new_tuple(stx, [z3.Select(stx.heap.sel("$okey", seq), i), z3.Select(stx.heap.sel("$oval", seq), i)])
                 if t == "dictview":
                     return z3.Select(stx.heap.sel(dictview, seq), i)
                 if t == "tuple":
